@@ -417,3 +417,5 @@ def summarize(results, tier):
         "samples": samples[:6],
         "exhaustive": True,
     }
+
+RULE += ' Session 4: both nestings of the cache and logging context managers; option spellings with the value given as a reference to another option (true and false).'
